@@ -450,7 +450,51 @@ func runC19(r *Runner, g *Gen, tier string) string {
 		}
 		r.Do(L(items...), k > 2, "internseq")
 	}
+	// concurrent: 2-3 goroutines share one interned field; deterministic schedules over the intern yield points
+	m := scale(tier, 600, 40000)
+	for i := 0; i < m; i++ {
+		nt := 2 + g.r.Intn(2)
+		reqs := []*Sexp{A("reqs")}
+		for t := 0; t < nt; t++ {
+			var ds []*Sexp
+			for k := 1 + g.r.Intn(3); k > 0; k-- {
+				ds = append(ds, A(hx(pool[g.r.Intn(5)]))) // few distinct values: races on the same key
+			}
+			reqs = append(reqs, L(ds...))
+		}
+		var sch []*Sexp
+		if i < 200 {
+			// one preemption at position i%40, then the other goroutine
+			for k := 0; k < i%40; k++ {
+				sch = append(sch, A("0"))
+			}
+			for k := 0; k < 60; k++ {
+				sch = append(sch, A("1"))
+			}
+		} else {
+			for k := 0; k < 60; k++ {
+				sch = append(sch, A(fmt.Sprint(g.r.Intn(nt))))
+			}
+		}
+		r.Do(L(A("internsched"), L(reqs...), L(sch...)), true, "internsched")
+	}
 	return "histories of 1-10 decodes through one freshly built interned string field (string and null.String): new, repeated, empty, prefix-sharing and binary inputs, the caller's buffer overwritten after every call and all results re-read at the end; compared with the model: the decoded strings and the sharing structure (which results are the same allocation); oracle: each result equals the input bytes (= what the plain codec returns)"
+}
+
+// every goroutine must get exactly its inputs back, whatever the interleaving
+func oracleInternSched(op *Sexp, res string) []string {
+	var want []string
+	for _, th := range op.List[1].List[1:] {
+		var ds []string
+		for _, it := range th.List {
+			ds = append(ds, it.Atom)
+		}
+		want = append(want, strings.Join(ds, ","))
+	}
+	if res != strings.Join(want, " | ") {
+		return []string{"interned decode under a schedule differs from the inputs: " + res + " | trace: " + schedLastTrace}
+	}
+	return nil
 }
 
 func oracleInternSeq(op *Sexp, res string) []string {
